@@ -152,7 +152,7 @@ type Kernel struct {
 	recvOrd    int
 	unsolSeq   int
 	// statistics (faults fired)
-	FiredErrno, FiredUnsol, FiredStale, FiredDelay, FiredTrunc, FiredSpoof, FiredReorder int
+	FiredErrno, FiredUnsol, FiredStale, FiredDelay, FiredTrunc, FiredSpoof, FiredReorder, FiredBigAck int
 }
 
 func New(replySize int, now func() int64) *Kernel {
@@ -178,12 +178,21 @@ func (k *Kernel) enqueue(d *Datagram) *Datagram {
 }
 
 func (k *Kernel) ack(r *Request, errno int, avail int64) *Datagram {
-	// struct nlmsgerr: int error; struct nlmsghdr msg (the request's header)
-	b := make([]byte, NlmsgHdrLen+4+NlmsgHdrLen)
+	// struct nlmsgerr: int error; struct nlmsghdr msg. netlink_ack echoes only
+	// the request's header on success and the whole request when it reports an
+	// error (the reader's buffer cuts what does not fit).
+	echo := NlmsgHdrLen
+	if errno != 0 && len(r.Wire) > echo {
+		echo = len(r.Wire)
+	}
+	b := make([]byte, NlmsgHdrLen+4+echo)
 	hdr(b, uint32(len(b)), NlmsgError, 0, r.Seq, r.Pid)
 	le.PutUint32(b[16:], uint32(int32(-errno)))
 	if len(r.Wire) >= NlmsgHdrLen {
-		copy(b[20:], r.Wire[:NlmsgHdrLen])
+		copy(b[20:], r.Wire[:echo])
+	}
+	if len(b) >= 8900 {
+		k.FiredBigAck++
 	}
 	d := &Datagram{Bytes: b, Req: r.Idx, Kind: DAck, AvailAt: avail}
 	r.Replies = append(r.Replies, d)
